@@ -152,6 +152,10 @@ def df_attr(interp, df, name):
         return (c["n"], len(c["order"]))
     if name == "loc":
         return BoundLib("df.loc", df)
+    if name == "index":
+        # every frame of the model carries the default RangeIndex (module docstring)
+        from .lib import RangeVal
+        return RangeVal(0, c["n"])
     if name in c["cols"] and name not in ("round", "join", "groupby", "to_csv", "mean", "copy", "astype"):
         return _series(c["cols"][name], name)
     return BoundLib("df." + name, df)
